@@ -13,9 +13,15 @@ Batching is factored out by C06; this file models what the code does to ONE item
 * `predictAt`   — composition with the initial state.
 * `matA`, `matBg`, `matBa`, `noise`, `propagateCov` — the 9×9 covariance propagation through
                   `cumprod(A.flip(1), dim=1).flip(1)`; the order of that product is the parameter `left`
-                  (`left = true` is what the code calls: `cumprod` default).
+                  (the repaired code passes `left=False`: time-ordered product, `codeLeft = false`; `left = true`,
+                  `cumprod`'s default, was the pre-D27 behaviour).
 * `call`        — `forward`: default / explicit `init_state`, `prop_cov`, `reset`, carried buffers.
-* `preSeq`, `compose`, `covSeq` — the DOCUMENTED sequential recursions (the specification the theorems compare with).
+* `preSeq`, `compose`, `covSeq` — the SEQUENTIAL recursions in the wording of property C16 ("dR ← dR·Exp(w dt), dv ← dv + dR a dt,
+                  dp ← dp + dv dt + ½ dR a dt², a = acceleration with gravity removed by the supplied / integrated rotation,
+                  composed with the initial state"): the step-by-step form of what `integrate` + `predict` compute.
+                  NOTE the docstring of `forward` / `predict` writes the composition in another convention
+                  (`R_j = ΔR_ij * R_i`, `v_j = … + gΔt`, `p_j = … + ½gΔt²`, covariance noise without the `1/dt`): see
+                  `Proofs/Props/C16.lean` §10 for the exact relation.
 * `checkShape`, `lift`, `forwardItem` — `_check` rank lifting `(H) → (1,1,H)`, `(F,H) → (1,F,H)`.
 
 Every intermediate sequence is materialised (`tab`) so that the executable instance is `O(F log F)`;
@@ -272,10 +278,13 @@ structure Cfg (α : Type) where
   g : Vec3 α
   reset : Bool
   propCov : Bool
-  /-- order of the cumulative product in `propagate_cov` (`cumprod` default = `true`) -/
+  /-- order of the cumulative product in `propagate_cov` (`true` = `cumprod`'s default, the pre-D27 code; the code passes `false`) -/
   left : Bool
 
-/-- the order `propagate_cov` uses in `/repo` (after the D25 repair): `cumprod(A.flip([1]), dim=1, left=False)` -/
+/-- the constructor's guard: `prop_cov` and `reset` cannot both be False (py:100-101) -/
+def Cfg.valid (cfg : Cfg α) : Bool := cfg.reset || cfg.propCov
+
+/-- the order `propagate_cov` uses in `/repo` (after the D27 repair, py:462): `cumprod(A.flip([1]), dim=1, left=False)` -/
 def codeLeft : Bool := false
 
 /-- explicit `init_state` argument: `cov` key absent/None → `none`; `Rij` key absent → `none`, present → `some _` -/
@@ -453,12 +462,25 @@ def Tens.quat (t : Tens α) (b f : Nat) : Quat α := ⟨t.at3 b f 0, t.at3 b f 1
 def framesOf (dt gyro acc : Tens α) (rot : Option (Tens α)) (gcov acov : Vec3 α) (b : Nat) : Nat → Frame α :=
   fun f => ⟨dt.at3 b f 0, gyro.vec b f, acc.vec b f, rot.map (fun r => r.quat b f), gcov, acov⟩
 
+/-- a lifted tensor really is `(B, F, H)` with `B·F·H` entries -/
+def Tens.wf (t : Tens α) (B F H : Nat) : Bool := t.shape == [B, F, H] && t.data.size == B * F * H
+
+/-- documented shapes after lifting: `dt (B,F,1)`, `gyro (B,F,3)`, `acc (B,F,3)`, `rot (B,F,4)` with the SAME `B`, `F ≥ 1`
+(anything else — mismatched batch / frame counts, wrong feature size, short data — is rejected; the code raises somewhere) -/
+def shapesOk (dt gyro acc : Tens α) (rot : Option (Tens α)) : Bool :=
+  let B := dt.lift.B
+  let F := dt.lift.F
+  decide (1 ≤ B) && decide (1 ≤ F) && dt.lift.wf B F 1 && gyro.lift.wf B F 3 && acc.lift.wf B F 3 &&
+    (match rot with | some r => r.lift.wf B F 4 | none => true)
+
 /-- `forward` on tensors of rank 1, 2 or 3, item `b` of the (lifted) batch -/
 def forwardItem (cfg : Cfg α) (st : State α) (dt gyro acc : Tens α) (rot : Option (Tens α))
     (gcov acov : Vec3 α) (b : Nat) : Except String (Result α) :=
   if rankOk acc.shape dt.shape gyro.shape then
-    let dt' := dt.lift
-    .ok (call cfg st none (framesOf dt' gyro.lift acc.lift (rot.map Tens.lift) gcov acov b) dt'.F)
+    if shapesOk dt gyro acc rot then
+      let dt' := dt.lift
+      .ok (call cfg st none (framesOf dt' gyro.lift acc.lift (rot.map Tens.lift) gcov acov b) dt'.F)
+    else .error "shape"
   else .error "assert"
 
 end PP.Imu
